@@ -51,6 +51,40 @@ Proof. apply skipn_all. Qed.
 
 (* ------------------------------------------------------------------ *)
 (* CreateTempFile *)
+Lemma cleanup_spec sch old s :
+  Old old s ->
+  match cleanup_temp sch s with
+  | Ret _ s' | Err s' | Dead s' => Old old s'
+  | Pan _ => False
+  end.
+Proof.
+  intros (Ht & Hr & Hc). destr_st s. unfold tgt in *. cbn in Ht, Hr, Hc. subst tg.
+  unfold cleanup_temp, seq, bind, ignore_err, atomic_op, noeff, remove_temp_eff, log, set_temp, with_fs.
+  cbn.
+  destruct (sch OCloseTemp); cbn; try solve [old_tac].
+  all: destruct (sch ORemoveDiscard); cbn; try solve [old_tac].
+Qed.
+
+Lemma prepare_temp_spec sch old ax tr :
+  ~ In ORename tr -> ~ In OCreateDst tr ->
+  match prepare_temp sch (mkSt (mkFs (Some old) (Some (mkFile [] default_temp_mode))) [] ax tr) with
+  | Ret _ s => PreS old (f_mode old) [] s /\ s_appx s = ax
+  | Err s | Dead s => Old old s
+  | Pan _ => False
+  end.
+Proof.
+  intros Hr Hc.
+  unfold prepare_temp, seq, bind, hook, ignore_err, atomic_op, noeff, log, set_temp, with_fs.
+  cbn.
+  destruct (sch HStatTarget); cbn; try solve [old_tac].
+  destruct (sch OStat); cbn; try solve [old_tac].
+  destruct (sch HChmodTemp); cbn; try solve [old_tac].
+  destruct (sch OChmod); cbn; try solve [old_tac].
+  destruct (sch HChownTemp); cbn; try solve [old_tac].
+  destruct (sch OChown); cbn; try solve [old_tac];
+    (split; [unfold PreS; split; [old_tac | split; reflexivity] | reflexivity]).
+Qed.
+
 Lemma create_temp_spec sch old ax :
   let s0 := mkSt (mkFs (Some old) None) [] ax [] in
   match CreateTempFile sch s0 with
@@ -59,17 +93,19 @@ Lemma create_temp_spec sch old ax :
   | Pan _ => False
   end.
 Proof.
-  cbv zeta. unfold CreateTempFile, seq, bind, hook, ignore_err, atomic_op, noeff, log, set_temp, with_fs.
-  cbn.
+  cbv zeta. unfold CreateTempFile. unfold seq at 1. unfold bind at 1. unfold hook at 1. cbn.
   destruct (sch HCreateTemp); cbn; try solve [old_tac].
+  unfold seq at 1. unfold bind at 1. unfold atomic_op at 1. cbn.
   destruct (sch OMkTemp); cbn; try solve [old_tac].
-  destruct (sch HStatTarget); cbn; try solve [old_tac].
-  destruct (sch OStat); cbn; try solve [old_tac].
-  destruct (sch HChmodTemp); cbn; try solve [old_tac].
-  destruct (sch OChmod); cbn; try solve [old_tac].
-  destruct (sch HChownTemp); cbn; try solve [old_tac].
-  destruct (sch OChown); cbn; try solve [old_tac];
-    (split; [unfold PreS; split; [old_tac | split; reflexivity] | reflexivity]).
+  unfold with_cleanup, log, set_temp, with_fs. cbn.
+  match goal with |- context [prepare_temp sch (mkSt _ _ _ ?tr)] =>
+    pose proof (prepare_temp_spec sch old ax tr) as H end.
+  match type of H with ?A -> ?B -> _ => assert (HA : A) by clean_tac; assert (HB : B) by clean_tac end.
+  specialize (H HA HB). unfold default_temp_mode in *.
+  match goal with |- context [prepare_temp sch ?st0] => destruct (prepare_temp sch st0) as [u s1|s1|s1|s1] end;
+    try exact H.
+  pose proof (cleanup_spec sch old s1 H) as Hc.
+  destruct (cleanup_temp sch s1); exact Hc.
 Qed.
 
 (* ------------------------------------------------------------------ *)
@@ -350,7 +386,12 @@ Proof.
       * right. left. split; [exact Hok | exact H2].
       * right. right. split; [exact Hok | exact H2].
     + contradiction.
-  - right. left. split; [discriminate | exact H1].
+  - pose proof (finish_false_spec (cfg_cross cfg) sch old s1 H1) as H2.
+    destruct (FinishWriteInPlace (cfg_cross cfg) sch false s1) as [u2 s2|s2|s2|s2].
+    + right. left. split; [discriminate | exact H2].
+    + right. left. split; [discriminate | exact H2].
+    + left. exact H2.
+    + right. left. split; [discriminate | exact H2].
   - left. exact H1.
   - pose proof (finish_false_spec (cfg_cross cfg) sch old s1 H1) as H2.
     destruct (FinishWriteInPlace (cfg_cross cfg) sch false s1) as [u2 s2|s2|s2|s2].
@@ -526,4 +567,82 @@ Proof.
   - destruct (out_calls_has_appx (pl_calls pl) (snd (fm_split (f_bytes old))) Hne) as (pre & post & Hout).
     eexists. exists pre, post. split; [apply H|]. cbn [f_bytes]. unfold new_bytes. cbn. exact Hout.
   - exfalso. apply Hc. apply H.
+Qed.
+
+(* ------------------------------------------------------------------ *)
+(* the temp file is gone at every exit unless something in the finishing /
+   clean-up phase itself fails *)
+Definition finish_steps : list step :=
+  [OCloseTemp; ORemoveDiscard; HFinishBeforeClose; HFinishAfterClose; HBeforeRename; ORename; HAfterRename;
+   HCopyOpenSrc; OOpenSrc; HCopyCreateDst; OCreateDst; HCopyAfterTruncate; OCopyData; HCopyBeforeSync; OSync;
+   HCopyDoneBeforeRemove; ORemoveTemp].
+Definition finish_clean (sch : schedule) : Prop := forall x, In x finish_steps -> sch x = Ok.
+
+Ltac ok_all sch H :=
+  repeat match goal with |- context [sch ?x] => rewrite (H x) by (cbn; tauto) end.
+
+Lemma cleanup_clean sch s :
+  finish_clean sch -> exists s', cleanup_temp sch s = Ret tt s' /\ tmp s' = None.
+Proof.
+  intro H. unfold cleanup_temp, seq, bind, ignore_err, atomic_op, noeff, remove_temp_eff.
+  ok_all sch H. cbn. eexists. split; reflexivity.
+Qed.
+
+Lemma finish_false_clean cross sch s :
+  finish_clean sch -> exists s', FinishWriteInPlace cross sch false s = Ret tt s' /\ tmp s' = None.
+Proof.
+  intro H. unfold FinishWriteInPlace, seq, bind, hook, ignore_err, atomic_op, noeff, remove_temp_eff.
+  ok_all sch H. cbn. eexists. split; reflexivity.
+Qed.
+
+Lemma finish_true_clean cross sch old m t s :
+  finish_clean sch -> PreS old m t s ->
+  exists s', FinishWriteInPlace cross sch true s = Ret tt s' /\ tmp s' = None.
+Proof.
+  intros H ((Ht & Hr & Hc) & Htmp & Hbuf). destr_st s.
+  unfold tgt, tmp in *. cbn in Ht, Hr, Hc, Htmp, Hbuf. subst tg tp bf.
+  unfold FinishWriteInPlace, tryRenameFile, copyFileContents, seq, bind, hook, ignore_err, atomic_op, data_op, noeff,
+    remove_temp_eff, rename_eff.
+  destruct cross; ok_all sch H; cbn; ok_all sch H; cbn; eexists; split; reflexivity.
+Qed.
+
+Lemma create_temp_clean sch old ax :
+  finish_clean sch ->
+  match CreateTempFile sch (mkSt (mkFs (Some old) None) [] ax []) with
+  | Err s => tmp s = None
+  | _ => True
+  end.
+Proof.
+  intro H. unfold CreateTempFile. unfold seq at 1. unfold bind at 1. unfold hook at 1. cbn.
+  destruct (sch HCreateTemp); cbn; try exact I; try reflexivity.
+  unfold seq at 1. unfold bind at 1. unfold atomic_op at 1. cbn.
+  destruct (sch OMkTemp); cbn; try exact I; try reflexivity.
+  unfold with_cleanup.
+  match goal with |- context [prepare_temp sch ?st0] => destruct (prepare_temp sch st0) as [u s1|s1|s1|s1] end;
+    try exact I.
+  destruct (cleanup_clean sch s1 H) as (s' & E & Ht). rewrite E. exact Ht.
+Qed.
+
+Theorem temp_removed cfg sch pl old c s :
+  finish_clean sch -> run cfg sch pl old = Exited c s -> fs_temp (s_fs s) = None.
+Proof.
+  intros H. unfold run. cbv zeta.
+  destruct (pl_init_ok pl); cbn [negb]; [|intro E; injection E as _ <-; reflexivity].
+  pose proof (create_temp_spec sch old (if is_process cfg then snd (fm_split (f_bytes old)) else [])) as H0.
+  pose proof (create_temp_clean sch old (if is_process cfg then snd (fm_split (f_bytes old)) else []) H) as H0c.
+  cbv zeta in H0. unfold init_state.
+  destruct (CreateTempFile sch _) as [u s0|s0|s0|s0]; try contradiction.
+  2:{ intro E. injection E as _ <-. exact H0c. }
+  2:{ discriminate. }
+  destruct H0 as [HP Hax].
+  pose proof (body_spec cfg sch pl old s0 HP Hax) as H1.
+  destruct (body cfg sch pl s0) as [b s1|s1|s1|s1].
+  - destruct H1 as (-> & HP1 & _).
+    destruct (finish_true_clean (cfg_cross cfg) sch old _ _ s1 H HP1) as (s' & E & Ht). rewrite E.
+    intro X. injection X as _ <-. exact Ht.
+  - destruct (finish_false_clean (cfg_cross cfg) sch s1 H) as (s' & E & Ht). rewrite E.
+    intro X. injection X as _ <-. exact Ht.
+  - discriminate.
+  - destruct (finish_false_clean (cfg_cross cfg) sch s1 H) as (s' & E & Ht). rewrite E.
+    intro X. injection X as _ <-. exact Ht.
 Qed.
